@@ -725,6 +725,19 @@ func ruleLexMode(c *Ctx) {
 			c.check(len(missing) == 0, name+"|"+run.label+"-terminators", c.pos(fn.Pos()), name, fmt.Sprintf("a %s run stops at %q, which covers every token that may follow it", run.label, run.excl), fmt.Sprintf("a %s run (terminators %q) does not stop at %v: the following token or comment is swallowed into the %s text", run.label, run.excl, missing, run.label))
 		}
 	}
+	// no silent end of input: in plain mode a rune is a one-rune token, starts a number, a comment or a symbol; the runes
+	// that cannot start a symbol (the ones that end a symbol run) must therefore all be tokens or the comment introducer,
+	// or the scanner reports EOF in the middle of the text and the rest is dropped without an error
+	if lt, err := c.lexerTables(); err == nil {
+		c.site(1)
+		var silent []string
+		for _, r := range lt.symbolExcl {
+			if _, isTok := lt.runeToken[r]; !isTok && r != ';' {
+				silent = append(silent, fmt.Sprintf("%q", r))
+			}
+		}
+		c.check(len(silent) == 0, name+"|no-silent-eof", c.pos(fn.Pos()), name, fmt.Sprintf("every rune that ends a symbol run (%q) is a token or the comment introducer in plain mode", lt.symbolExcl), fmt.Sprintf("in plain mode the rune(s) %v can neither start a symbol nor are they a token: the scanner returns EOF there, the parser accepts what it has seen so far and the rest of the text is dropped without an error", silent))
+	}
 	// the digit class: a NUMBER starts and continues with ASCII 0-9 only (Unicode digits are symbol characters)
 	c.checkDigitClass()
 	// setters store their argument
